@@ -1,12 +1,6 @@
 //! vcheck: property-based checks for sigp/discv5 (see /verif/DESIGN.md).
 
-mod engines;
-mod findings;
-mod ids;
-mod keys;
-mod props;
-mod refmodel;
-mod runner;
+use vharness::{props, runner};
 
 use runner::{run_parent, run_replay, run_shard, Property, RunArgs, Tier, DEFAULT_SEED};
 use std::path::PathBuf;
